@@ -341,6 +341,56 @@ def _app_failure(exc_i, where, stop_first):
     return st['code'] != 0 and not ran2 and app.exit_code == st['code']
 
 
+class _StopTask(ItemTask):
+    """Task of pipeline k: logs, and in the pipeline chosen for it asks the application to stop."""
+    def __init__(self, log, tag, app_box, stop_here):
+        self.log, self.tag, self.app_box, self.stop_here = log, tag, app_box, stop_here
+
+    @asyncio.coroutine
+    def process(self, item):
+        self.log.append((self.tag, item))
+        if self.stop_here:
+            self.app_box[0].stop()
+        yield from asyncio.sleep(0)
+
+
+def _app_stop_series(layout_i, stop_in):
+    """A series of mandatory (M) and skippable (S) pipelines; a stop is requested while pipeline `stop_in` runs.  Afterwards no
+    skippable pipeline takes any work; mandatory ones (clean-up stages) still run; the exit code stays 0."""
+    from wpull.application.app import Application
+    from wpull.pipeline.pipeline import PipelineSeries
+    layout = pick(['MSM', 'MMSSM', 'MSMSM', 'MMS', 'SMS', 'MSSM'], layout_i)
+    stop_in = pick([0, 1, 2, 3, 4], stop_in)
+    if stop_in >= len(layout):
+        return True
+    log = []
+    box = [None]
+    st = {}
+    with nosym():
+        pipes = []
+        for k, kind in enumerate(layout):
+            p = Pipeline(_FailSrc(None, n=2), [_StopTask(log, k, box, k == stop_in)])
+            p.skippable = kind == 'S'
+            pipes.append(p)
+        app = Application(PipelineSeries(pipes))
+        box[0] = app
+
+        async def main():
+            st['code'] = await app.run()
+        try:
+            aio.run_choice(main, lambda n: 0, max_steps=4000)
+        except aio.Deadlock:
+            return False
+    hit('stopped')
+    for k, kind in enumerate(layout):
+        worked = any(t == k for t, _ in log)
+        if k > stop_in and kind == 'S' and worked:
+            return False                              # a skippable pipeline took work after the stop request
+        if k > stop_in and kind == 'M' and not worked:
+            return False                              # mandatory (clean-up) pipelines still run
+    return True
+
+
 # ---------------------------------------------------------------- ItemQueue step invariants
 def _queue_step(nq, unfinished, action, producer_blocked):
     """nq items queued, `unfinished` outstanding; one action: 0 put_item, 1 get, 2 item_done, 3 put_poison + get."""
@@ -421,6 +471,11 @@ HARNESSES = [
              'wpull/pipeline/pipeline.py:ItemQueue.put_poison_nowait'],
       doc='ItemQueue step: unfinished count == puts - dones >= 0, the producer waits while the queue is non-empty and is woken by every '
           'get/item_done, poison outranks items, items are FIFO'),
+    H('app_stop_series', '_app_stop_series', 'layout_i: int, stop_in: int', pre=['0 <= layout_i <= 5 and 0 <= stop_in <= 4'],
+      timeout={'quick': 200, 'thorough': 400}, samples=[(0, 0), (1, 0), (2, 1)], need=['stopped'],
+      funcs=['wpull/application/app.py:Application.run', 'wpull/application/app.py:Application.stop'],
+      doc='6 layouts of mandatory / skippable pipelines x the pipeline during which a stop is requested: after the request no skippable '
+          'pipeline takes work (also when a mandatory one runs in between), mandatory ones still run'),
     H('app_failure', '_app_failure', 'exc_i: int, where: int, stop_first: bool',
       pre=['0 <= exc_i <= 13 and 0 <= where <= 2'], timeout={'quick': 120, 'thorough': 300},
       samples=[(0, 1, False), (10, 2, False), (0, 0, False)], need=['clean-run', 'failure'],
